@@ -161,8 +161,19 @@ def run_v1(report, n, rng):
             act, p2 = picture.otsvg_picture(text, 0, whole_document_to_font=svg_to_font(vb, asc, desc, width))
             # multi-palette fonts: palette entries become var(--colorN, colour); the oracle keeps N
             s = (asc - desc) / vb[3]
-            probs = p1 + p2 + picture.compare_pictures(exp, act, eps=0.02 * s + 0.5, unit_tol=0.02 * s + 0.5, palette_check=False)
-            if npal > 1 and "var(--color" not in text and "fill=" in text:
+            # colr_to_svg writes matrices with 3 decimals: on coordinates of the size of the em that is up to
+            # 0.0005 * 2 * upem font units per transform, on top of the 3-decimal path coordinates (0.02 * s)
+            rnd = 0.0005 * 2 * 1000
+            probs = p1 + p2 + picture.compare_pictures(exp, act, eps=0.02 * s + 0.5 + rnd, unit_tol=0.02 * s + 0.5 + rnd, palette_check=False)
+            def uses_palette(p):
+                if isinstance(p, dict):
+                    return (p.get("PaletteIndex", 0xFFFF) != 0xFFFF) or any(uses_palette(v) for v in p.values())
+                if isinstance(p, (list, tuple)):
+                    return any(uses_palette(v) for v in p)
+                return False
+
+            # (a glyph painted with the foreground colour alone has nothing to look up in a palette)
+            if npal > 1 and "var(--color" not in text and "fill=" in text and uses_palette(graphs[g]) and "base2" not in repr(graphs[g]):
                 probs.append("multi-palette font but no var(--colorN, ...) fills")
             report.count(("v1", g, repr(graphs[g]), vb, npal), True)
             if probs:
